@@ -56,8 +56,16 @@ for name in names:
         subprocess.run(['git', '-C', REPO, 'checkout', '--', '.'])
 if not INPLACE:
     subprocess.run(['git', '-C', '/repo', 'worktree', 'remove', '--force', REPO])
+store_p = os.path.join(HERE, 'seeded', 'results.json')
+store = json.load(open(store_p)) if os.path.exists(store_p) else {}
+for r in rows:
+    store[f'{r[0]}|{r[1]}'] = {'seeded': r[0], 'property': r[1], 'result': r[2], 'replay_says': r[3], 'seconds': round(r[4])}
+json.dump(store, open(store_p, 'w'), indent=1, sort_keys=True)
 with open(os.path.join(HERE, 'seeded', 'RESULTS.md'), 'w') as f:
-    f.write('# Seeded breaking changes vs checks (quick tier)\n\n| seeded change | property | result | what the replay says | s |\n|---|---|---|---|---|\n')
-    for r in rows:
-        f.write(f'| {r[0]} | {r[1]} | {r[2]} | {r[3]} | {r[4]:.0f} |\n')
+    f.write('# Seeded breaking changes vs checks (quick tier)\n\nEach change was written by an independent sub-agent that saw only the '
+            'property text, passes the pinned test-suite and comes with a demo that fails only with the change.\n\n'
+            '| seeded change | property | result | what the replay says | s |\n|---|---|---|---|---|\n')
+    for k in sorted(store):
+        r = store[k]
+        f.write(f"| {r['seeded']} | {r['property']} | {r['result']} | {r['replay_says']} | {r['seconds']} |\n")
 print('missed:', [r[0] for r in rows if r[2] == 'MISSED' or r[2].startswith('check error') or r[2].startswith('PATCH')])
